@@ -50,10 +50,12 @@ Lemma code_series_sort_index_refines : forall s asc,
 Proof. rewrite code_params_good. exact series_sort_index_refines. Qed.
 
 Lemma code_series_sort_values_refines : forall s keyres asc,
+  length (os_values (ss_obs s)) = length (os_index (ss_obs s)) ->
   let v := match keyres with Some c => hd [] (cfs_keys c) | None => os_values (ss_obs s) end in
-  length v = length (os_index (ss_obs s)) ->
   hier_ok (ss_idepth s) (os_index (ss_obs s)) (S_order [v] (length (os_index (ss_obs s))) asc) = true ->
-  M_series_sort_values code_params s keyres asc = Ok (S_series_sort (ss_obs s) [v] asc).
+  M_series_sort_values code_params s keyres asc =
+  if (length v =? length (os_index (ss_obs s)))%nat then Ok (S_series_sort (ss_obs s) [v] asc)
+  else Err "RuntimeError".
 Proof. rewrite code_params_good. exact series_sort_values_refines. Qed.
 
 Lemma code_index_sort_refines : forall depth labels asc,
